@@ -10,5 +10,11 @@ def replay(cex):
     from pgradd.GroupAdd.Library import GroupLibrary
     w = cex['witness'][-1]
     lib = GroupLibrary.Load('BensonGA')
+    if 'form' in w:
+        from vf.molforms import descriptors_of
+        ref = descriptors_of(lib, w['a'], 'smiles')[0]
+        got = descriptors_of(lib, w['a'], w['form'], 2)
+        return dict(reproduced=any(g != ref for g in got), signature='descr:form',
+                    detail='%s as %s -> %r ; SMILES -> %r' % (w['a'], w['form'], got, ref))
     a, b = dict(lib.GetDescriptors(w['a'])), dict(lib.GetDescriptors(w['b']))
     return dict(reproduced=a != b, signature='descr:spelling', detail='%s -> %r ; %s -> %r' % (w['a'], a, w['b'], b))
